@@ -385,6 +385,20 @@ func (r *codecRunner) run(op Op) {
 					note("JSON parsed into pulsar differs from JSON parsed into the reference")
 				}
 			}
+			// --- JSON with EmitUnpopulated: the encoder then calls Get on every field, populated or
+			// not (also on nil messages held in containers)
+			{
+				o := protojson.MarshalOptions{EmitUnpopulated: true}
+				refU, refUErr := o.Marshal(r.d)
+				pU, pUErr := o.Marshal(r.p)
+				var a, b any
+				json.Unmarshal(refU, &a)
+				json.Unmarshal(pU, &b)
+				if (refUErr == nil) != (pUErr == nil) || (refUErr == nil && !reflect.DeepEqual(a, b)) {
+					e.JSONOk = false
+					note("protojson(EmitUnpopulated) differs from the reference: %s vs %s (%v / %v)", trunc(string(pU), 150), trunc(string(refU), 150), pUErr, refUErr)
+				}
+			}
 			// --- text format, same scheme (documents compared by parsing both with the reference)
 			refT, refTErr := prototext.Marshal(r.d)
 			pT, pTErr := prototext.Marshal(r.p)
